@@ -224,13 +224,6 @@ theorem fill_eq_micZeroed (buf : Bytes) : buf.take 81 ++ List.replicate 16 0 ++ 
 
 /-! ### `SessionKeys::SessionKeys(handshake, pmk)` -/
 
-/-- the specification of what the constructor must compute from a captured handshake: the 640-bit PRF output over the
-    standard's label and data, accepted exactly when the Key MIC of message 4 verifies under its KCK -/
-def Spec.sessionKeys (H : Spec.Mac) (hmacMd5 hmacSha1 : Spec.Mac) (pmk aa spa anonce snonce : Bytes) (version : Nat)
-    (msg4 msg4Mic : Bytes) : Option (Bytes × Bool) :=
-  let ptk := Spec.ptk H pmk aa spa anonce snonce 640
-  if Spec.keyMic hmacMd5 hmacSha1 version (Spec.kck ptk) msg4 = some msg4Mic then some (ptk, version == 2) else none
-
 theorem keyDescriptor_cases (e : Eapol) (hv : e.keyDescriptor = 1 ∨ e.keyDescriptor = 2) :
     (e.keyDescriptor == 2) = (e.keyDescriptor.toNat == 2) ∧ (e.keyDescriptor.toNat = 1 ∨ e.keyDescriptor.toNat = 2) := by
   rcases hv with h | h <;> rw [h] <;> decide
